@@ -17,7 +17,14 @@ the axis) are judged on the rotation TLC rebuilds from the returned parameters. 
 of a round trip whose input (a matrix the implementation itself produced) was already rejected
 is skipped, not judged twice.
 
-Known defect on the pinned tree (reported, not loosened): decompose_matrix never takes its
+Families added by the coverage audit live in checks/c19_audit.py (near-identity matrices on large
+coordinates, rotation matrices carrying rounding noise, small angles, optional arguments and input
+containers, anchored entry points that were never called: quaternion_slerp, scale_and_translate,
+fix_rigid, is_rigid, plane_transform, spherical_matrix, random_rotation_matrix, scene kwargs_to_matrix);
+their deviation ids (decided on the input only) are TransformPointsNearIdentityShortcut,
+RotationFromMatrixSmallAngle, EulerFromMatrixNoisyGimbal, ScaleAndTranslateDefaultScale.
+
+Known defect on the pinned tree (reported, not loosened; repaired since): decompose_matrix never took its
 gimbal-lock branch (`if np.cos(angles[1])` is 6e-17, not 0, at +-pi/2).  Rejections of
 decompose_matrix records are attributed by a predicate on the INPUT only:
   DecomposeGimbalShear  middle angle +-pi/2 and non-zero shear
@@ -31,6 +38,7 @@ import sys
 
 import numpy as np
 
+from checks import c19_audit as AUD
 from harness import tlc
 from harness.common import (MachineryError, Verdict, import_trimesh, pmap, seed,
                             tier_from_args)
@@ -447,6 +455,8 @@ def gen(chunk):
             gen_planar(tf, cases, *args)
         elif kind == "align":
             gen_align(trimesh.geometry, cases, *args)
+        elif AUD.gen_audit(trimesh, cases, kind, args):
+            pass
         else:
             raise MachineryError("unknown work item " + str(kind))
     return cases
@@ -620,6 +630,8 @@ def work_items(tier):
     for a in AXES6:
         for b in AXES6:
             W.append(("align", a, b))
+    # families added by the coverage audit (checks/c19_audit.py)
+    W.extend(AUD.audit_items(tier, rs))
     return W
 
 
@@ -647,6 +659,8 @@ def A_sin(k):
 def deviation_of(c):
     """Deviation id for a rejected record, decided on the INPUT only."""
     if c["fn"] != "decompose_matrix":
+        return AUD.deviation_of_audit(c)
+    if c.get("src") not in ("composed", "exact"):
         return None
     mid = c["ang"][1]
     gimbal = mid["t"] == "k" and mid["k"] % 2 != 0           # cos(beta) = 0
@@ -663,6 +677,7 @@ def main(argv):
     tier = tier_from_args(argv)
     V = Verdict(PROP, tier)
     import_trimesh()
+    AUD.bind(globals())
     W = work_items(tier)
     # interleave so that every pool chunk holds a mix of cheap and expensive items
     order = np.random.RandomState(seed() + 7).permutation(len(W))
@@ -679,9 +694,27 @@ def main(argv):
             "rotation_matrix": 100, "rotation_from_matrix": 48, "compose_matrix": 1000,
             "decompose_matrix": 2000, "transform_points": 300, "transform_around": 80, "planar_matrix": 50,
             "quaternion_matrix": 48, "quaternion_about_axis": 50, "euler_roundtrip": 400}
+    need.update(AUD.NEED)
     for fn, k in need.items():
         if byfn.get(fn, 0) < k:
             raise MachineryError(f"enumeration too small for {fn}: {byfn.get(fn, 0)} < {k}")
+    # sub-families of the audit: presentations of the input that reach the same code
+    sub = {}
+    for c in cases:
+        for key in ("noise", "container", "enc", "variant", "src", "smode", "kind"):
+            if key in c and isinstance(c[key], str):
+                sub[f"{c['fn']}.{key}={c[key]}"] = sub.get(f"{c['fn']}.{key}={c[key]}", 0) + 1
+        if c["fn"] == "euler_roundtrip_m" and c["noise"] != "none" and AUD.gimbal_for(c["axes"], c["M"]):
+            sub["euler_roundtrip_m.noisy_gimbal_locked"] = sub.get("euler_roundtrip_m.noisy_gimbal_locked", 0) + 1
+        if c["fn"] == "transform_points_ni" and c["sh"] >= 29:
+            sub["transform_points_ni.within_1e-8_of_identity"] = sub.get("transform_points_ni.within_1e-8_of_identity", 0) + 1
+        if c["fn"] == "rotation_roundtrip_q" and AUD.deviation_of_audit(c):
+            sub["rotation_roundtrip_q.angle_below_1.4e-4"] = sub.get("rotation_roundtrip_q.angle_below_1.4e-4", 0) + 1
+        if c["fn"] == "compose_matrix" and "given" in c and not all(c["given"]):
+            sub["compose_matrix.absent_factor"] = sub.get("compose_matrix.absent_factor", 0) + 1
+    for key, k in AUD.NEED_SUB.items():
+        if sub.get(key, 0) < k:
+            raise MachineryError(f"enumeration too small for {key}: {sub.get(key, 0)} < {k}")
     # bounded rounds and a bounded heap: 16 JVMs holding a few thousand parsed records each
     os.environ.setdefault("JAVA_TOOL_OPTIONS", "-Xmx3g")
     rejects, states, wall = {}, 0, 0.0
@@ -713,6 +746,7 @@ def main(argv):
         "states": states, "transitions": states,
         "traces_validated_against_impl": len(cases),
         "cases_per_function": byfn,
+        "audit_subfamilies": sub,
         "conventions": len(AXES24),
         "gimbal_lock_inputs": gimbal,
         "rejected": len(rejects) - skipped,
@@ -726,7 +760,15 @@ def main(argv):
         "angles on the quarter-turn lattice {0, +-pi/2, +-pi}^3 (all gimbal-lock configurations), Pythagorean "
         "angles (3,4,5), (5,12,13) and rational rotations from integer quaternions with square norm; generic "
         "irrational angles only through matrix-level round trips",
-        "scales in {1/2, 1, 2} (a few negative), shears in quarter units, integer translations, no perspective",
+        "scales 1/4 .. 8 in quarter units (a few negative), shears in quarter units, translations up to 60, no "
+        "perspective",
+        "audit families: near-identity matrices I + 2^-k J (k = 29 .. 36) on integer points up to 2^25; rotation "
+        "matrices carrying rounding noise up to 1e-14 (products of float matrices, +-2^-49 per entry); rational "
+        "rotations with angles down to 5e-5; produced rotations with irrational entries (align_vectors, "
+        "plane_transform, random_rotation_matrix, fix_rigid) judged on their snapped Gram matrix, determinant and "
+        "the images of the defining vectors; align_vectors is also required to rotate a onto b and plane_transform "
+        "to flatten the plane (the documented meaning of the anchored functions); the angle returned by "
+        "align_vectors(return_angle=True) is NOT constrained (the statement says nothing about it)",
         "the sense of rotation of planar_matrix and the sign of returned quaternions / axes are not constrained",
     ])
 
